@@ -202,16 +202,17 @@ pub struct TopoShape {
     pub max_dcs: u64,
     pub max_racks: u64,
     pub max_vnodes: u64,
-    /// allow the same token in two different datacenters
-    pub cross_dc_dups: bool,
+    /// 0 = tokens pairwise distinct; 1 = some tokens shared by nodes of different datacenters;
+    /// 2 = some tokens shared by arbitrary nodes (also within one datacenter)
+    pub dups: u8,
 }
 
 pub const TOKEN_POOL: [i64; 8] =
     [i64::MIN + 1, i64::MAX, i64::MAX - 1, -1, 0, 1, i64::MIN + 2, 1 << 62];
 
 /// Random topology: 0..=max_nodes nodes, some without datacenter or rack, 0..=max_vnodes tokens each.
-/// Tokens are pairwise distinct after `Token::new` normalisation, except (when allowed) for a few tokens
-/// deliberately shared between nodes of different datacenters.
+/// Tokens are pairwise distinct after `Token::new` normalisation, except (when `dups` allows) for a few tokens
+/// deliberately shared between nodes (the servers refuse token collisions; the driver must stay consistent).
 pub fn gen_topology(rng: &mut Rng, shape: TopoShape) -> Vec<PeerSpec> {
     let n = if rng.chance(1, 40) { 0 } else { rng.range(1, shape.max_nodes as i64) as u64 };
     let dcs = rng.range(1, shape.max_dcs as i64) as u32;
@@ -249,11 +250,11 @@ pub fn gen_topology(rng: &mut Rng, shape: TopoShape) -> Vec<PeerSpec> {
         // host ids are not in ring order and not contiguous
         peers.push(PeerSpec { id: i * 3 + 1 + (i % 2) * 40, dc, rack, tokens, flags: String::new() });
     }
-    if shape.cross_dc_dups && peers.len() >= 2 && rng.chance(1, 5) {
+    if shape.dups > 0 && peers.len() >= 2 && rng.chance(1, 3) {
         for _ in 0..rng.range(1, 3) {
             let a = rng.below(peers.len() as u64) as usize;
             let b = rng.below(peers.len() as u64) as usize;
-            if peers[a].dc != peers[b].dc && !peers[a].tokens.is_empty() {
+            if a != b && (shape.dups == 2 || peers[a].dc != peers[b].dc) && !peers[a].tokens.is_empty() {
                 let t = *rng.pick(&peers[a].tokens);
                 if !peers[b].tokens.contains(&t) {
                     peers[b].tokens.push(t);
